@@ -270,6 +270,9 @@ func checkC11(c *Ctx, r *Report) {
 		}
 		r.add("C11.f", "fieldflow", fi.Key+":same-args", "both emitters receive the same (config, controllers, models)", []string{fi.Key}, sites, viol)
 	}
+
+	// every element filter in the emitters is a reviewed one
+	ruleSkipInventory(c, r, "C11.c", loadSkipTable(c.VerifDir), 6, "generator/swagen")
 }
 
 // ---------------------------------------------------------------------------
